@@ -11,10 +11,52 @@ SPEC = {
         {"kind": "SCHED", "type": "(list (action * obs))", "eval": "check_case", "per_shard": 150},
     ],
     "classes": {},
-    "n_quick": 600, "n_thorough": 20000,
+    "n_quick": 500, "n_thorough": 15000,
     "level": "proof",
+    "what_violation": ("the multipart/mixed body is not a well-formed multipart stream of the arrived responses in order "
+                       "(heartbeats as {} parts, closing delimiter once and last, nothing after the end)"),
+    "rule": ("the real create_multipart_mixed_stream with a manual Timer (a flag raised by the schedule) and an unbounded "
+             "channel as input, polled one poll_next at a time with a no-op waker: ALL schedules over "
+             "{arrive, fire, poll, close} up to length 5 (quick) / 7 (thorough), each completed by closing the input and "
+             "polling to the end, plus random schedules of 4-64 actions with hostile response contents (CR LF, "
+             "'--graphql--' and full part headers inside strings, quotes, control and non-BMP characters, errors with "
+             "paths, extensions); per poll the returned chunk / Pending / None is compared with the model, whose "
+             "select! choice (both branches ready) is read off the next chunk; the received bytes are re-read by the Coq "
+             "RFC 2046 reader; distinct by (schedule, responses); non-trivial = at least one response and one heartbeat"),
+    "trusted": ["tools/factsgen/multipart.py (byte-string statics and yield order -> MultipartGen.v; control skeleton "
+                "checked by regular expressions)",
+                "harness manual Timer / channel / single-poll driver; serde_json::to_vec = serde_json::to_writer",
+                "differential sampling: Multipart.v step = the generator on this run's schedules",
+                "futures_util::select! picks among ready branches only, in no fixed order (modelled as an explicit choice)"],
+    "assumptions": [
+        "a serialised Response contains no raw CR byte (serde_json escapes control characters); exercised with CR/LF inside strings",
+        "the reader accepts a body with zero parts ('--graphql--' immediately): RFC 2046 asks for at least one part; "
+        "a subscription that ends before its first event produces exactly that",
+        "serialisation failure of a Response (`continue`, the response is skipped) is modelled (EBad) but cannot be "
+        "produced through the public API and is not exercised",
+        "the consumer polls to the end; a body dropped half-way is truncated (out of scope)",
+    ],
 }
-MANIFEST = {}
+
+
+MANIFEST = {
+    "category": "proof",
+    "technique": ("Coq proof by induction over all event sequences and all schedules (state machine with explicit select! "
+                  "choice, invariant: delivered ++ buffered = chunks of the selections; FIFO conservation) against an RFC 2046 "
+                  "reader written in Coq + byte strings and yield order translated from the source on every run + "
+                  "exhaustive small-schedule and random differential correspondence on the real function"),
+    "text": ("Coq theorems: for every sequence of select! outcomes the concatenated output re-reads (RFC 2046 reader, boundary "
+             "graphql) as exactly the responses in order with heartbeats as {} parts, all application/json, followed by the "
+             "closing delimiter and CRLF only; the closing-delimiter chunk is yielded exactly once, last, and never before the "
+             "input ended; nothing is yielded after the end. For every schedule of arrivals, timer firings, polls, select! "
+             "choices and close: delivered plus buffered chunks are the chunks of the selections, responses are selected in "
+             "arrival order without loss or duplication, at most one heartbeat per firing, and a drained closed stream re-reads "
+             "as above; afterwards every poll answers None. The constants and yield order are regenerated from "
+             "multipart_subscribe.rs on every run; the step model is tied to the real function by all schedules up to length "
+             "5/7 and random schedules with hostile payloads."),
+    "note": ("trusted: Coq kernel, tools/factsgen/multipart.py, harness driver, sampled agreement model vs code; "
+             "theorems closed under the global context (no axioms)"),
+}
 
 
 def run(tier, seed, replay=None):
